@@ -125,6 +125,14 @@ impl RD {
             DefVal::Bool(b) => if *b { "TRUE" } else { "FALSE" }.into(),
             DefVal::Null => "NULL".into(),
             DefVal::CurrentTimestamp => "CURRENT_TIMESTAMP".into(),
+            DefVal::Bytes(b) => {
+                let hex: String = b.iter().map(|x| format!("{x:02X}")).collect();
+                if self.d == Dialect::Postgres {
+                    format!("'\\x{hex}'")
+                } else {
+                    format!("x'{hex}'")
+                }
+            }
         }
     }
 
